@@ -15,22 +15,29 @@ THEOREMS = [
     "Rtosc.C13.independent_lines_commute",
     "Rtosc.C13.kahn_perm_invariant_state",
     "Rtosc.C13.dependent_port_applied_first",
+    "Rtosc.C13.refsOf_not_self",
 ]
 HARNESS = dict(C12.HARNESS)
 STATELESS = True
-RULE = ("every savefile of C12's state space (eleven generated applications x states reached by parameter messages, biased "
+RULE = ("every savefile of C12's state space (fourteen generated applications x states reached by parameter messages, biased "
         "towards enabling toggles, preset ports and their dependants, walks down dependency chains that leave intermediate ports "
         "at their defaults, enable-then-set sequences; +infinity excluded: such a file does not scan, C12-K9) is split into "
         "messages with the library's own scanner and loaded in every permutation of its messages (exhaustive up to 6 messages = "
         "up to 720 loads per case, 40..200 pseudo-random permutations beyond); constructs: rEnabledBy on sub-trees and on "
-        "parameters, rDefaultDepends chains up to 7 deep, rDepends on parameters and sub-trees with lists up to 16 entries, "
+        "parameters, sub-trees enabled by a toggle of their own (rRecur(sub, rEnabledBy(sub/t)), rSelf(T, rEnabledBy(t))), "
+        "rDefaultDepends chains up to 7 deep, rDepends on parameters and sub-trees with lists up to 16 entries, "
         "preset-dependent array defaults, ports with the enumeration inside their name, sibling names that extend each other; "
+        "every load is also observed through a counting savefile_dispatcher_t: each message of the file is handed to the "
+        "dispatcher exactly once in every order; "
         "plus the dependency metadata of the compiled port tables compared with the declaration; non-trivial = the history "
         "has at least two messages; distinct = distinct op line")
 ASSUMPTIONS = list(C12.ASSUMPTIONS) + [
     "files the theorem quantifies over (App.FileOK): port names pairwise different (save_to_file's `written` set guarantees "
     "it), array lines stand under array ports with at most their length elements, no parameter is addressed by two lines",
-    "the dependency metadata is acyclic and less than 64 levels deep (MetaRanked; the model's scan has that budget, the code none)",
+    "the dependency metadata is acyclic and less than 64 levels deep (MetaRanked; the model's scan has that budget, the code none); "
+    "the reference of a sub-tree's `enabled by` to a port of that sub-tree is not a cycle for that port itself (skipped by the "
+    "scan, fixes/C13-scan-deps-self-edge); a toggle inside the sub-tree it enables that in turn depends on another port "
+    "of that sub-tree would be one",
     "'declared dependency' is what scan_deps' own path arithmetic (levels, rel2abs, entry splitting) makes of the metadata: "
     "MetaCovers relates the application's dependence relation to refsOf, which is built from the same functions; a defect in "
     "them makes MetaCovers false for the application (it is evaluated per application on every run), not the theorem false",
@@ -41,7 +48,9 @@ LEVEL_TEXT = ("Lean theorems: Kahn's algorithm as written outputs every message 
               "every dependence the application declares between two present lines is a path of edges found by scan_deps, also "
               "through absent ports; independent lines commute; hence for every permutation of a file satisfying FileOK the "
               "loaded state and count are equal (the count clause is trivial: it is the number of lines). The hypotheses hold "
-              "for six of the eleven generated applications (evaluated on every run); all eleven are compared with the "
+              "for nine of the fourteen generated applications (evaluated on every run; among them the three with sub-trees "
+              "enabled by a toggle of their own: refsOf reads the `self:` port of every level's table and a path does not "
+              "refer to itself, as in the repaired scan_deps); all fourteen are compared with the "
               "implementation on all permutations of generated savefiles")
 LEVEL_NOTE = ("the port lookup of scan_deps (Ports::apropos / port_of_path) enters as a hypothesis (MetaCovers) that is checked "
               "per application and by correspondence; see C18. The commutation proof needs anc_chain (disjoint write sets); "
@@ -83,6 +92,10 @@ def oracle(op, out):
     d = C12.parse_out(out)
     # only what the statement says: every permutation loads like the file as written (state and reported count);
     # whether that state is the saved one, and the count the number of lines, are C12's clauses
+    # "a port that another port refers to is always applied before the dependent port": in particular every message
+    # of the file is applied, in every order (observed by counting what load_from_file hands to its dispatcher)
+    if d.get("A") != "1" and d.get("R") != "neg":
+        return "a load reported %s messages but did not apply every message of the file (%s messages)" % (d.get("R"), d.get("N"))
     if d.get("SAME") != "1":
         return "a permutation of the messages loads differently: permutation %s gives result %s" % (d.get("W"), out.split(" W ", 1)[-1][:300])
     return None
